@@ -37,6 +37,7 @@ type job struct {
 	light  string
 	light2 string
 	tiny   string
+	fullnt string
 	sgIdx  int
 	sg     subgoal
 	alts   []job // alternative way to discharge this subgoal (all must be unsat)
@@ -76,6 +77,17 @@ func (j *job) render(kind string) string {
 			return ""
 		}
 		return j.light2
+	case "fullnt":
+		if j.fullnt == "" {
+			j.fullnt = j.ex.buildQueryMode(j.res.O, j.sg, "", nil, false, false, false, true)
+			if j.fullnt == "" {
+				j.fullnt = "-"
+			}
+		}
+		if j.fullnt == "-" {
+			return ""
+		}
+		return j.fullnt
 	default:
 		if j.query == "" {
 			j.query = j.ex.buildQuery(j.res.O, j.sg, "", nil)
@@ -327,6 +339,21 @@ func run(repo, verif, prop, tier, only, dump string, list, verbose bool, timeout
 					atomic.AddInt64(&statLight2Ns, int64(time.Since(t2)))
 					if sr.Status == "unsat" {
 						sr.Solver += tag
+					}
+				}
+				if sr.Status != "unsat" && !j.res.O.IsCover {
+					// the quantified query without the type-tag hypotheses (sound: fewer hypotheses)
+					if nt := j.render("fullnt"); nt != "" {
+						tnt := to
+						if tnt > 10 {
+							tnt = 10
+						}
+						r := Solve(nt, tnt, false)
+						j.fullnt = "-"
+						if r.Status == "unsat" {
+							sr = r
+							sr.Solver += "(nt)"
+						}
 					}
 				}
 				if sr.Status != "unsat" {
